@@ -172,7 +172,7 @@ def run_fn(case, want):
 SYMS3 = 3
 
 
-def db_space(n, combo, max_gaps, binary=False, cli=False):
+def db_space(n, combo, max_gaps, binary=False, cli=False, base_level=0.0):
     """Records with n samples: rain word (n symbols), increment word
     (n-1 symbols), gap mask over the n-2 interior samples with at most
     max_gaps missing.  binary=True restricts both alphabets to the two
@@ -187,13 +187,19 @@ def db_space(n, combo, max_gaps, binary=False, cli=False):
     def decode(i):
         mask = masks[i % len(masks)]
         i //= len(masks)
-        return {'kind': 'cli' if cli else 'db', 'n': n, 'combo': combo,
+        case = {'kind': 'cli' if cli else 'db', 'n': n, 'combo': combo,
                 'base': base, 'rain': i // n_i, 'inc': i % n_i,
                 'missing': mask}
+        if base_level:
+            # the record starts at a level that is not a binary fraction: differences
+            # of neighbouring stored levels are still exact (Sterbenz), a rate z / step_h is not
+            case['base_level'] = base_level
+        return case
     return Space(
-        '%s/n=%d/dt=%d,s=%g,j=%g/%s/gaps<=%d' % (
+        '%s/n=%d/dt=%d,s=%g,j=%g/%s/gaps<=%d%s' % (
             'main(argv)' if cli else 'load+classify', n, combo[0], combo[1],
-            combo[2], 'binary' if binary else 'ternary', max_gaps),
+            combo[2], 'binary' if binary else 'ternary', max_gaps,
+            '/levels from %g' % base_level if base_level else ''),
         size, decode,
         'rain in {0,=s,>s} x increment in {fall,=j*dt,>j*dt} x gap masks'
         if not binary else
@@ -221,7 +227,7 @@ def db_inputs(case):
     rain_values = (0.0, s, 2 * s) if s > 0 else (0.0, 0.0, 2.5)
     inc_values = (-unit, unit, 2 * unit) if unit > 0 else (-1.0, 0.0, 1.0)
     rain = [rain_values[d] for d in rd]
-    level = [0.0]
+    level = [float(case.get('base_level') or 0.0)]
     for d in idg:
         level.append(level[-1] + inc_values[d])
     for k in range(n - 2):
